@@ -410,5 +410,8 @@ func runC05(c *gen.Ctx) error {
 			Run: []string{}, Skip: []string{}, Suites: []c05Suite{{Name: "S0", Tests: []c05Test{{Name: "a/t0", St: 1}, {Name: "a/t1", St: 3}}}}})
 	}
 	c.DoParallel("run", ins, 4)
+	// a real server process that ignores SIGTERM must still be stopped (killed) before the batch
+	// returns its --max-servers slot
+	c.DoParallel("osserver", oscmdServerScenarios(c)[2:], 2)
 	return nil
 }
